@@ -617,7 +617,77 @@ fn gen_sweeps(rng: &mut Rng, tier: &str, out: &mut Vec<String>) {
     }
 }
 
+/// steer the live encoder into the inverted situation (words held back); returns the ops
+fn steer_inverted<C: RangeCombo>(rng: &mut Rng, e: &mut Enc<C>, w: u32, s: u32, bps: &[(u32, Vec<u32>)], max_steps: usize, ops: &mut Vec<(u32, u32, Vec<u128>, usize)>) -> bool {
+    let (b, ps) = bps.last().unwrap();
+    let (b, p) = (*b, *ps.last().unwrap());
+    for _ in 0..max_steps {
+        if enc_view::<C>(e).2 {
+            return true;
+        }
+        let md = rng.next() % 3;
+        let (cdf, sym) = steer_mode::<C>(rng, e, w, s, p, &[], b, Some(md));
+        if !matches!(guarded(|| C::enc_sym(e, b, p, &cdf, sym)), Ok(Some(ref x)) if x == "ok") {
+            return false;
+        }
+        ops.push((b, p, cdf, sym));
+    }
+    enc_view::<C>(e).2
+}
+
+/// `clear()` at an arbitrary point — preferably while words are held back — then a fresh message
+/// on the reused encoder, with everything observable about it
+fn gen_clear_line<C: RangeCombo>(rng: &mut Rng, w: u32, s: u32, bps: &[(u32, Vec<u32>)]) -> String {
+    let mut e: Enc<C> = RangeEncoder::new();
+    let mut line = format!("range {:x} {:x} | new", w, s);
+    let mut ops = Vec::new();
+    if rng.chance(3, 4) {
+        steer_inverted::<C>(rng, &mut e, w, s, bps, 12, &mut ops);
+    } else {
+        for _ in 0..(rng.next() % 6) {
+            let (b, p) = pick_bp(rng, bps);
+            let (cdf, sym) = steer::<C>(rng, &e, w, s, p, &[], b);
+            if matches!(guarded(|| C::enc_sym(&mut e, b, p, &cdf, sym)), Ok(Some(ref x)) if x == "ok") {
+                ops.push((b, p, cdf, sym));
+            }
+        }
+    }
+    for (b, p, cdf, sym) in &ops {
+        line.push_str(&format!(" | enc {:x} {:x} {:x} {:x}", b, p, cdf[*sym], cdf[*sym + 1] - cdf[*sym]));
+    }
+    line.push_str(" | raw | snap | clear | raw | empty | nw | nb | getc | export | spec | pos");
+    e.clear();
+    let mut encoded: Vec<(u32, u32, Vec<u128>)> = Vec::new();
+    for _ in 0..(rng.next() % 8) {
+        let (b, p) = pick_bp(rng, bps);
+        let (cdf, sym) = steer::<C>(rng, &e, w, s, p, &[], b);
+        if !matches!(guarded(|| C::enc_sym(&mut e, b, p, &cdf, sym)), Ok(Some(ref x)) if x == "ok") {
+            break;
+        }
+        line.push_str(&format!(" | enc {:x} {:x} {:x} {:x}", b, p, cdf[sym], cdf[sym + 1] - cdf[sym]));
+        encoded.push((b, p, cdf));
+        if rng.chance(1, 6) {
+            line.push_str(" | raw | clear | raw");
+            e.clear();
+            encoded.clear();
+        }
+    }
+    line.push_str(" | raw | nw | export | spec");
+    if !encoded.is_empty() {
+        line.push_str(&format!(" | decoder {}", triples_str(&encoded)));
+    }
+    line.push_str(" | intodec");
+    for (b, p, cdf) in &encoded {
+        line.push_str(&format!(" | dec {:x} {:x} {}", b, p, show_list(cdf.clone())));
+    }
+    line.push_str(" | exhausted | raw");
+    line
+}
+
 fn gen_combo<C: RangeCombo>(rng: &mut Rng, w: u32, s: u32, bps: &[(u32, Vec<u32>)], n_enc: usize, n_dec: usize, out: &mut Vec<String>) {
+    for _ in 0..n_enc / 6 {
+        out.push(gen_clear_line::<C>(rng, w, s, bps));
+    }
     // threshold regime (most relevant for State > 2·Word, harmless elsewhere)
     for _ in 0..(if s > 2 * w { n_enc / 4 } else { n_enc / 16 }) {
         out.push(gen_threshold_line::<C>(rng, w, s, bps));
